@@ -1,5 +1,208 @@
-//! C16 (c): panic census over the public operations on well-formed finite input.
+//! C16 (c): panic census — every public operation executed under catch_unwind on well-formed
+//! finite input drawn from extreme-value alphabets; any panic is a violation. The documented
+//! rejections are executed too and only reported.
+use crate::common::*;
+use approx::{AbsDiffEq, RelativeEq};
+use serde_json::json;
+use std::sync::Arc;
 use xplore::*;
-pub fn phases(_thorough: bool, _seed: u64) -> Vec<Phase> {
-    vec![]
+
+const EXT: [f64; 9] = [0.0, -0.0, 1.0, -1.0, 5e-324, -2.2250738585072014e-308, 1e300, f64::MAX, -f64::MAX];
+const ARGS: [f64; 10] = [0.0, -1.0, 0.5, 5e-324, 1e300, f64::MAX, -f64::MAX, f64::INFINITY, f64::NEG_INFINITY, f64::NAN];
+
+fn np<T>(what: &str, input: serde_json::Value, f: impl FnOnce() -> T) -> Verdict {
+    match guard(f) {
+        Ok(_) => Ok(()),
+        Err(p) => Err(Fail::new(format!("{what} panicked on well-formed finite input: {p}"), json!({"operation": what, "input": input, "panic": p}))),
+    }
+}
+
+fn form_ops<T>(c: &[f64], s: f64, x: f64) -> Verdict
+where
+    T: Nums + Evaluate + HasDerivative + Translate + Copy + std::ops::Mul<f64, Output = T> + std::ops::Neg<Output = T> + std::ops::Add<Output = T> + std::ops::MulAssign<f64> + AbsDiffEq<Epsilon = f64> + RelativeEq + PartialEq,
+    <T as HasDerivative>::DerivativeOf: Evaluate,
+    Log<T>: HasIntegral,
+    <Log<T> as HasIntegral>::IntegralOf: Evaluate,
+{
+    np(T::NAME, json!({"coefficients": fjs(c), "scalar": fj(s), "argument": fj(x)}), || {
+        let p = T::from_nums(c);
+        let mut acc = p.evaluate(x) + p.derivative().evaluate(x);
+        let mut t = p;
+        t.translate(s);
+        t *= s;
+        let u = (p * s) + (-t);
+        acc += u.evaluate(x);
+        let l = Log(p);
+        acc += l.evaluate(x) + l.indefinite().evaluate(x) + l.integral(Knot { x: 1.5, y: s }).evaluate(x);
+        let _ = p.abs_diff_eq(&u, s.abs()) | p.relative_eq(&u, 1e-9, 1e-9) | (p == u);
+        acc
+    })
+}
+fn int_ops<T>(c: &[f64], s: f64, x: f64) -> Verdict
+where
+    T: Nums + HasIntegral + Copy,
+    T::IntegralOf: Evaluate + Translate,
+{
+    np("HasIntegral", json!({"coefficients": fjs(c), "knot_y": fj(s), "argument": fj(x)}), || {
+        let p = T::from_nums(c);
+        let seg = Segment { end: x, poly: p };
+        p.indefinite().evaluate(x) + p.integral(Knot { x, y: s }).evaluate(x) + seg.integral(Knot { x: s, y: x }).evaluate(x)
+    })
+}
+
+pub fn phases(thorough: bool, _seed: u64) -> Vec<Phase> {
+    let mut v = vec![];
+    // ---- forms
+    v.push(Phase {
+        name: "census-forms",
+        units: 9,
+        split: 1,
+        body: Box::new(move |unit, cx| {
+            let n = unit + 1;
+            let lane = cx.choose(n);
+            let val = *cx.pick(&EXT);
+            let bg = *cx.pick(&[1.0, f64::MAX, 5e-324]);
+            let c: Vec<f64> = (0..n).map(|i| if i == lane { val } else { bg }).collect();
+            let s = *cx.pick(&EXT);
+            let x = *cx.pick(&ARGS);
+            cx.nontrivial();
+            cx.evals(12);
+            if cx.sampling() {
+                cx.sample(json!({"degree": unit, "coefficients": fjs(&c), "scalar": fj(s), "argument": fj(x)}));
+            }
+            by_degree!(unit, form_ops(&c, s, x))?;
+            if unit <= 7 {
+                by_degree7!(unit, int_ops(&c, s, x))?;
+            }
+            let q4 = IntOfLogPoly4 { k: c[0], coeffs: [val, bg, s, c[n - 1]], u: bg };
+            np("IntOfLogPoly4", json!({"numbers": fjs(&q4.nums()), "argument": fj(x)}), || {
+                let r = (&q4 + &q4) - (q4 * s) + (-q4);
+                let mut t = r;
+                t.translate(x);
+                (&t - &q4).evaluate(x) + q4.evaluate(x)
+            })?;
+            np("PolyN", json!({"coefficients": fjs(&c), "argument": fj(x)}), || {
+                let mut p = PolyN(c.clone());
+                p.translate(s);
+                let e = PolyN(vec![]);
+                p.evaluate(x) + e.evaluate(x) + (p.abs_diff_eq(&e, 1.0) as u8 as f64)
+            })
+        }),
+        classes: vec![],
+        bounds: json!({"operations": "evaluate, derivative, translate, *, *=, -, +, approx, Log evaluate/indefinite/integral, HasIntegral (degree <= 7), Segment::integral, IntOfLogPoly4 operators, PolyN",
+            "inputs": "each coefficient swept through {0,-0.0,+-1,5e-324,-2^-1022,1e300,+-MAX} against backgrounds {1,MAX,5e-324}; scalars from the same set; arguments incl. +-inf and NaN"}),
+    });
+    // ---- constructions
+    let xs_sorted = [-f64::MAX, -1e300, -1.0, 0.0, 5e-324, 1.0, 1e300, f64::MAX];
+    let subs: Vec<Vec<f64>> = (3..=if thorough { 6 } else { 5 }).flat_map(|k| crate::spline::subsets(8, k)).map(|s| s.iter().map(|&i| xs_sorted[i]).collect()).collect();
+    let subs = Arc::new(subs);
+    let ns = subs.len();
+    v.push(Phase {
+        name: "census-constructions",
+        units: ns,
+        split: 0,
+        body: Box::new(move |unit, cx| {
+            let xs = &subs[unit];
+            let ys: Vec<f64> = xs.iter().map(|_| *cx.pick(&[0.0, -0.0, 1e300, -f64::MAX, 5e-324])).collect();
+            let knots: Vec<Knot> = xs.iter().zip(&ys).map(|(&x, &y)| Knot::new(x, y)).collect();
+            cx.nontrivial();
+            cx.evals(4);
+            if cx.sampling() {
+                cx.sample(json!({"knots_x": fjs(xs), "knots_y": fjs(&ys)}));
+            }
+            np("constrained_spline / linear", json!({"knots_x": fjs(xs), "knots_y": fjs(&ys)}), || {
+                let s = constrained_spline(&knots);
+                let l = linear(&knots);
+                let mut rev = knots.clone();
+                rev.reverse();
+                let l2 = linear(&rev);
+                let l3 = linear(&knots[..2]);
+                let mut acc = 0.0;
+                for k in &knots {
+                    acc += s.evaluate(k.x) + l.evaluate(k.x) + l2.evaluate(k.y) + l3.evaluate(k.x) + s.derivative().evaluate(k.x) + l.integral(*k).evaluate(k.x);
+                }
+                acc
+            })
+        }),
+        classes: vec![],
+        bounds: json!({"operations": "constrained_spline (>=3 strictly increasing knots), linear (in order, reversed, 2 knots), evaluate / derivative / integral of the results",
+            "inputs": "every increasing subset of size 3..5 (6 thorough) of {-MAX,-1e300,-1,0,5e-324,1,1e300,MAX} x ordinates in {0,-0.0,1e300,-MAX,5e-324}"}),
+    });
+    // ---- piecewise operations with nasty non-NaN ends
+    let sh = Arc::new(shapes(&nasty_values(), if thorough { 4 } else { 3 }));
+    let nsh = sh.len();
+    let sh2 = sh.clone();
+    v.push(Phase {
+        name: "census-piecewise",
+        units: nsh,
+        split: 0,
+        body: Box::new(move |unit, cx| {
+            let ends = &sh2[unit];
+            let other = cx.pick(&sh2[..]).clone();
+            let s = *cx.pick(&[0.0, -1.0, 1e300, 5e-324]);
+            cx.nontrivial();
+            cx.evals(10);
+            if cx.sampling() {
+                cx.sample(json!({"ends": fjs(ends), "other_ends": fjs(&other), "scalar": fj(s)}));
+            }
+            np("piecewise operations", json!({"ends": fjs(ends), "other_ends": fjs(&other), "scalar": fj(s)}), || {
+                let f = poly3_pw(ends);
+                let mut g = (f.clone() * s).derivative();
+                g *= s;
+                g.translate(s);
+                let h = -g;
+                let i1 = f.integral(Knot { x: s, y: 1.0 });
+                let i2 = f.indefinite();
+                let qa = Piecewise { segments: ends.iter().map(|&e| Segment { end: e, poly: IntOfLogPoly4 { k: s, coeffs: [1.0, s, -1.0, 0.5], u: 2.0 } }).collect::<Vec<_>>() };
+                let qb = Piecewise { segments: other.iter().map(|&e| Segment { end: e, poly: IntOfLogPoly4 { k: 1.0, coeffs: [s, 1.0, 0.5, -1.0], u: s } }).collect::<Vec<_>>() };
+                let sum = &qa + &qb;
+                let dif = &qb - &qa;
+                let lp = logpoly8_pw(ends);
+                let li = lp.integral(Knot { x: 1.0, y: s });
+                let mut acc = 0.0;
+                for x in [s, 1.0, f64::INFINITY, f64::NEG_INFINITY, f64::NAN] {
+                    acc += h.evaluate(x) + i1.evaluate(x) + i2.evaluate(x) + sum.evaluate(x) + dif.evaluate(x) + li.evaluate(x);
+                    acc += PiecewiseEvaluator::new(&sum.segments).evaluate(x);
+                }
+                let _ = f.abs_diff_eq(&f, 0.0) | f.relative_eq(&f, 0.0, 0.0);
+                let _ = serde_json::to_string(&sum).ok();
+                let _ = serde_cbor::to_vec(&dif).ok().and_then(|b| serde_cbor::from_slice::<Piecewise<IntOfLogPoly4>>(&b).ok());
+                acc
+            })
+        }),
+        classes: vec![],
+        bounds: json!({"operations": "Piecewise *, *=, translate, -, derivative, integral, indefinite, &+&, &-&, evaluate, PiecewiseEvaluator, approx, serde",
+            "inputs": "every pair of end lists of length 1..3 (4 thorough) over the nasty value set (non-NaN, +-0, subnormal, MAX, +inf) x 4 scalars"}),
+    });
+    // ---- documented rejections: executed and reported, never flagged
+    v.push(Phase {
+        name: "documented-rejections",
+        units: 8,
+        split: 0,
+        body: Box::new(move |unit, cx| {
+            let empty: Piecewise<Poly1> = Piecewise { segments: vec![] };
+            let one = Piecewise { segments: vec![Segment { end: 1.0, poly: IntOfLogPoly4::default() }] };
+            let nan = Piecewise { segments: vec![Segment { end: f64::NAN, poly: IntOfLogPoly4::default() }, Segment { end: 2.0, poly: IntOfLogPoly4::default() }] };
+            let emptyq: Piecewise<IntOfLogPoly4> = Piecewise { segments: vec![] };
+            let panicked = match unit {
+                0 => guard(|| linear(&[Knot::new(0.0, 0.0)]).segments.len()).is_err(),
+                1 => guard(|| constrained_spline(&[Knot::new(0.0, 0.0), Knot::new(1.0, 1.0)]).segments.len()).is_err(),
+                2 => guard(|| empty.evaluate(0.0)).is_err(),
+                3 => guard(|| PiecewiseEvaluator::new(&empty.segments).evaluate(0.0)).is_err(),
+                4 => guard(|| empty.evaluate_v(vec![0.0]).count()).is_err(),
+                5 => guard(|| (&one + &nan).segments.len()).is_err(),
+                6 => guard(|| (&nan - &one).segments.len()).is_err(),
+                _ => guard(|| (&one + &emptyq).segments.len()).is_err(),
+            };
+            cx.class(if panicked { 0 } else { 1 });
+            cx.evals(1);
+            if cx.sampling() {
+                cx.sample(json!({"rejection": unit, "panicked": panicked}));
+            }
+            Ok(())
+        }),
+        classes: vec![("documented_rejection_panics", false), ("documented_rejection_returns", false)],
+        bounds: json!({"operations": "linear(<2 knots), constrained_spline(<3 knots), evaluate / PiecewiseEvaluator::new / evaluate_v on an empty function, + and - with a NaN breakpoint, + with an empty operand: executed and counted, never flagged"}),
+    });
+    v
 }
